@@ -22,11 +22,11 @@ def model_check(ctx, pid):
         jobs.append(("EvolventAuto N=%d" % n,
                      lambda cfg=cfg: run_tlc("EvolventAuto", cfg, workers=2, timeout=600, coverage=True)))
     if ctx.quick:
-        mcs = [(2, 4), (3, 2), (3, 3), (4, 2), (5, 2)] if pid != "C09" else [(2, 5), (3, 3), (4, 2), (5, 2)]
+        mcs = [(2, 4), (3, 2), (3, 3), (4, 2), (5, 2), (2, 8), (4, 4), (5, 3)] if pid != "C09" else [(2, 5), (3, 3), (4, 2), (5, 2), (2, 8), (3, 5), (4, 4), (5, 3)]
     else:
         mcs = [(2, 5), (2, 6), (3, 3), (3, 4), (4, 2), (4, 3), (5, 2)]
         if pid != "C08":
-            mcs += [(2, 8), (3, 5), (4, 4), (5, 3)]
+            mcs += [(2, 8), (3, 5), (4, 4), (5, 3), (2, 10), (3, 6), (4, 5), (5, 4)]
     for (n, m) in mcs:
         pairs = pid in ("C07", "C08") and n * m <= (10 if ctx.quick else 12)
         cfg = ("SPECIFICATION Spec\nCONSTANT N = %d\nCONSTANT M = %d\nCONSTANT CheckPairs = %s\nCHECK_DEADLOCK FALSE\n"
